@@ -29,16 +29,19 @@ Vocabulary, in terms of the Go code (`all` = `prev ++ [cur]` = the ObjectSets th
 import Pko.Model.Archive
 import Pko.Model.ArchiveSpec
 import Pko.Lemmas.C08
+import Pko.Lemmas.C08Slices
 import Pko.Model.ArchiveHist
 
 namespace Pko.Props.C08
-open Pko.Model.Archive Pko.Model.ArchiveSpec Pko.Lemmas.C08
+open Pko.Model.Archive Pko.Model.ArchiveSpec Pko.Lemmas.C08 Pko.Lemmas.C08Slices
 
 /-- **archived_only_if** (direct call, all inputs).  If a pass of the archive reconciler sends the
 `Archived` lifecycle update to the ObjectSet named `i`, then `i` names a revision `r` read by the
 pass with: `r` reported status-paused ∧ `r` is not the newest ∧ (some newer revision is Available ∨
 (`r` is itself unavailable ∧ `r`'s reported `controllerOf` shares no object with the objects of a
-next newer revision)).  (`Justified` is exactly this conjunction.) -/
+next newer revision — ALL its objects, the ones inline in `spec.phases[*].objects` and the ones in
+the ObjectSlices named by `spec.phases[*].slices` (`Rev.allObjects`), every one of those slices
+having been read (`ControlsNothingOf`))).  (`Justified` is exactly this conjunction.) -/
 theorem archived_only_if (prev : List Rev) (c : Rev) (limit : Option Int) (fin : Bool) (i : Nat)
     (h : Write.archive i ∈ (reconcile prev (some c) limit fin).1) :
     ∃ r ∈ prev ++ [c], r.id = i ∧
@@ -46,7 +49,7 @@ theorem archived_only_if (prev : List Rev) (c : Rev) (limit : Option Int) (fin :
       (∃ y ∈ prev ++ [c], r.rev < y.rev) ∧
       ((∃ y ∈ prev ++ [c], r.rev < y.rev ∧ y.available = true) ∨
        (r.available = false ∧
-        ∃ y ∈ prev ++ [c], IsNextNewer (prev ++ [c]) r y ∧ ControlsNothingIn r.controllerOf y.objects)) := by
+        ∃ y ∈ prev ++ [c], IsNextNewer (prev ++ [c]) r y ∧ ControlsNothingOf r.controllerOf y)) := by
   obtain ⟨o, ho, hid⟩ := reconcile_archive_mem h
   obtain ⟨hm, hj⟩ := toArchive_justified ho
   exact ⟨o, hm, hid, hj⟩
@@ -105,9 +108,11 @@ theorem reconcile_write_kinds (prev : List Rev) (c : Rev) (limit : Option Int) (
   simp only [reconcile] at h
   split at h
   · exact Or.inl (scan_writes h)
-  · rcases List.mem_append.mp h with h | h
+  · split at h
     · exact Or.inl (scan_writes h)
-    · exact Or.inr (markLoop_other h)
+    · rcases List.mem_append.mp h with h | h
+      · exact Or.inl (scan_writes h)
+      · exact Or.inr (markLoop_other h)
 
 /-! ### history pruning -/
 
@@ -160,12 +165,14 @@ theorem gc_prefix_any_input (prev : List Rev) (c : Rev) (limit : Option Int) (fi
   simp only [reconcile] at h
   split at h
   · exact absurd (scan_writes h) (by simp [IsPause])
-  · rcases List.mem_append.mp h with h | h
+  · split at h
     · exact absurd (scan_writes h) (by simp [IsPause])
-    · have := markLoop_delete h
-      rw [gc_eq] at this
-      obtain ⟨p, hp, hpe⟩ := List.mem_map.mp this
-      exact List.mem_map.mpr ⟨p, hp, by cases hpe; rfl⟩
+    · rcases List.mem_append.mp h with h | h
+      · exact absurd (scan_writes h) (by simp [IsPause])
+      · have := markLoop_delete h
+        rw [gc_eq] at this
+        obtain ⟨p, hp, hpe⟩ := List.mem_map.mp this
+        exact List.mem_map.mpr ⟨p, hp, by cases hpe; rfl⟩
 
 /-- **gc_never_current_partial**: the current revision is never deleted — for a direct call proved
 under the hypothesis the proof forces: the slice is sorted strictly ascending with the current
@@ -250,6 +257,110 @@ theorem gc_keeps_within_limit (prev : List Rev) (c : Rev) (limit : Option Int) (
   have hsplit := List.take_append_drop ((prev.length : Int) - limit.getD 10).toNat prev
   rw [← hsplit] at hnp
   exact (List.nodup_append.mp hnp).2.2 p hp p hq rfl
+
+/-! ### revisions whose objects live in ObjectSlices
+
+A revision *contains* `objects ++ sliced` (`Rev.allObjects`): the objects inline in
+`spec.phases[*].objects` and the objects of the (Cluster)ObjectSlices named by
+`spec.phases[*].slices`.  `archived_only_if` above already speaks about all of them
+(`ControlsNothingOf`); the corollaries below spell out the two halves separately. -/
+
+/-- **sliced_object_blocks_archival**: names and revision numbers unique, no revision newer than `r`
+is Available.  If `r` still controls an object `k` that its next newer revision `y` contains — no
+matter whether inline or in one of `y`'s ObjectSlices — `r` is not archived, whatever else is true
+of it. -/
+theorem sliced_object_blocks_archival (prev : List Rev) (c : Rev) (limit : Option Int) (fin : Bool)
+    (hn : ((prev ++ [c]).map (·.id)).Nodup) (hrev : (prev ++ [c]).Pairwise (fun a b => a.rev ≠ b.rev))
+    (r y : Rev) (hr : r ∈ prev ++ [c]) (hy : y ∈ prev ++ [c]) (hnext : IsNextNewer (prev ++ [c]) r y)
+    (hnoav : ∀ z ∈ prev ++ [c], r.rev < z.rev → z.available = false)
+    (co : List Key) (hco : r.controllerOf = some co) (k : Key) (hk : k ∈ co)
+    (hky : k ∈ y.objects ∨ k ∈ y.sliced) :
+    Write.archive r.id ∉ (reconcile prev (some c) limit fin).1 := by
+  intro h
+  obtain ⟨r', hr', hid, _, _, hj⟩ := archived_only_if prev c limit fin r.id h
+  have : r' = r := id_inj hn hr' hr hid
+  subst this
+  rcases hj with ⟨z, hz, hlt, hav⟩ | ⟨_, y', hy', hnext', hc, _⟩
+  · have := hnoav z hz hlt
+    rw [this] at hav; cases hav
+  · have h1 := hnext.2 y' hy' hnext'.1
+    have h2 := hnext'.2 y hy hnext.1
+    have : y' = y := rev_inj hrev hy' hy (by omega)
+    subst this
+    rw [hco] at hc
+    exact hc k hk (by simpa [Rev.allObjects] using hky)
+
+/-- **missing_slice_fails_safe**: when an ObjectSlice of the next newer revision `y` cannot be read,
+a revision that still controls anything is not archived (what `y` contains is unknown). -/
+theorem missing_slice_fails_safe (prev : List Rev) (c : Rev) (limit : Option Int) (fin : Bool)
+    (hn : ((prev ++ [c]).map (·.id)).Nodup) (hrev : (prev ++ [c]).Pairwise (fun a b => a.rev ≠ b.rev))
+    (r y : Rev) (hr : r ∈ prev ++ [c]) (hy : y ∈ prev ++ [c]) (hnext : IsNextNewer (prev ++ [c]) r y)
+    (hnoav : ∀ z ∈ prev ++ [c], r.rev < z.rev → z.available = false)
+    (hsm : y.sliceMissing = true) (hco : r.controllerOf ≠ some []) :
+    Write.archive r.id ∉ (reconcile prev (some c) limit fin).1 := by
+  intro h
+  obtain ⟨r', hr', hid, _, _, hj⟩ := archived_only_if prev c limit fin r.id h
+  have : r' = r := id_inj hn hr' hr hid
+  subst this
+  rcases hj with ⟨z, hz, hlt, hav⟩ | ⟨_, y', hy', hnext', _, hm⟩
+  · have := hnoav z hz hlt
+    rw [this] at hav; cases hav
+  · have h1 := hnext.2 y' hy' hnext'.1
+    have h2 := hnext'.2 y hy hnext.1
+    have : y' = y := rev_inj hrev hy' hy (by omega)
+    subst this
+    exact hco (hm hsm)
+
+/-- **slice_load_error_aborts_pass**: a pass in which loading the objects of a latest
+revision fails returns the error and has sent pause writes only — no `Archived` update, no `Delete`. -/
+theorem slice_load_error_aborts_pass (prev : List Rev) (c : Rev) (limit : Option Int) (fin : Bool)
+    (he : scanErr (sortAsc (prev ++ [c])).reverse = true) :
+    (reconcile prev (some c) limit fin).2 = true ∧
+    ∀ w ∈ (reconcile prev (some c) limit fin).1, IsPause w := by
+  simp only [reconcile, he, ↓reduceIte]
+  exact ⟨trivial, fun w hw => scan_writes hw⟩
+
+/-- What the archive decision reads of a latest revision is `allObjects` and `sliceMissing` only:
+moving objects between the ObjectSet and its ObjectSlices (all of them readable) does not change the
+decision about the previous revision (the C14 reading of this step: slices behave like inline). -/
+theorem pairStep_slices_like_inline (p l l' : Rev) (hobj : l'.allObjects = l.allObjects) :
+    pairStep p l' = pairStep p l := by
+  unfold pairStep
+  rw [hobj]
+
+theorem iterErr_slices_like_inline (p l l' : Rev) (hrev : l'.rev = l.rev)
+    (hm : l'.sliceMissing = l.sliceMissing) : iterErr p l' = iterErr p l := by
+  unfold iterErr revisionObjects
+  rw [hrev, hm]
+  cases l.sliceMissing <;> simp
+
+/-- **slices_behave_like_inline** (C08 meets C14, ObjectDeployment level; every scenario, both entry
+points): replace every revision all of whose ObjectSlices can be read by the same revision with the
+objects of its slices inline (`inlineReadable`) — the pass issues exactly the same writes in the same
+order and returns the same result.  Where the objects of a revision are stored makes no difference
+to archival or pruning. -/
+theorem slices_behave_like_inline (i : Input) :
+    run { i with revs := i.revs.map inlineReadable } = run i := by
+  have hf := inlineReadable_same
+  unfold run
+  cases hc : i.ctrl
+  · simp only [Bool.false_eq_true, ↓reduceIte, Input.prev, Input.cur]
+    cases hh : i.hasCur
+    · simpa using reconcile_map hf i.revs none i.limit i.fin
+    · simp only [↓reduceIte, ← List.map_dropLast, List.getLast?_map]
+      exact reconcile_map hf i.revs.dropLast i.revs.getLast? i.limit i.fin
+  · simp only [↓reduceIte]
+    exact osr_map hf i.revs i.odPaused i.limit i.fin
+
+/-- The same with every slice inlined, for deployments none of whose ObjectSlices is missing. -/
+theorem slices_behave_like_inline_all (i : Input) (hm : ∀ r ∈ i.revs, r.sliceMissing = false) :
+    run { i with revs := i.revs.map inlineAll } = run i := by
+  have : i.revs.map inlineAll = i.revs.map inlineReadable := by
+    apply List.map_congr_left
+    intro r hr
+    simp [inlineReadable, hm r hr]
+  rw [this]
+  exact slices_behave_like_inline i
 
 /-! ### through `objectSetReconciler.Reconcile` -/
 
@@ -516,7 +627,7 @@ theorem hist_monitor_model_ok (s : State) (ops : List Op) :
       rcases List.mem_cons.mp hp with rfl | hp
       · exact monitor_model_ok (inputOf s.revs s.odPaused s.limit s.fin)
       · exact hnext p hp
-    | new _ _ _ _ _ => exact hnext p hp
+    | new _ _ _ _ _ _ _ => exact hnext p hp
     | status _ _ _ _ => exact hnext p hp
     | edit _ _ _ => exact hnext p hp
     | del _ => exact hnext p hp
@@ -535,7 +646,7 @@ theorem hist_gc_oldest (s : State) (hwf : WF (inputOf s.revs s.odPaused s.limit 
 
 /-! ### concrete runs: non-vacuity and reading notes -/
 
-/-- revision literal: name, revision, Available, status-paused, lifecycle, controllerOf, objects -/
+/-- revision literal: name, revision, Available, status-paused, lifecycle, controllerOf, inline objects -/
 def mk (id : Nat) (rev : Int) (av sp : Bool) (lc : Lifecycle) (co : Option (List Key))
     (obj : List Key) : Rev :=
   { id := id, rev := rev, available := av, statusPaused := sp, lc := lc, pbp := false,
@@ -591,6 +702,32 @@ theorem adjacent_only_witness :
     reconcile [mk 0 1 false true .paused (some [0]) [0], mk 1 2 false false .active (some [1]) [1]]
       (some (mk 2 3 false false .active none [0])) none true
       = ([.pause 1, .archive 0], false) := by
+  decide
+
+/-- **sliced_latest_revision_witness** (the C08S finding, regression): r1 — the next newer revision —
+keeps key 0 in an ObjectSlice; r0 is unavailable, has confirmed its pause and still controls key 0.
+The pass writes nothing (before the repair of `archiveReconciler` — `getObjects()` of the latest
+revision read the inline objects only — it archived r0, whose teardown then deletes the object
+instead of it being adopted in place; `ArchiveSpec.verdict` rejects that write). -/
+theorem sliced_latest_revision_witness :
+    let r0 := mk 0 1 false true .paused (some [0]) [0]
+    let r1 := { mk 1 2 false false .active none [] with sliced := [0] }
+    reconcile [r0] (some r1) none true = ([], false) ∧
+    verdict { ctrl := false, revs := [r0, r1], hasCur := true, odPaused := false, limit := none, fin := true }
+      [.archive 0] ≠ "ok" ∧
+    -- the same revision with the object inline, and with a key r0 does not control in the slice
+    reconcile [r0] (some (mk 1 2 false false .active none [0])) none true = ([], false) ∧
+    reconcile [r0] (some { mk 1 2 false false .active none [1] with sliced := [2] }) none true
+      = ([.archive 0], false) := by
+  decide
+
+/-- A referenced ObjectSlice of the latest revision does not exist: the pass returns the error and
+archives nothing, although r0 controls only key 1, which none of the objects of r1 that could be
+read is. -/
+theorem missing_slice_witness :
+    let r0 := mk 0 1 false true .paused (some [1]) [1]
+    let r1 := { mk 1 2 false false .active none [0] with sliceMissing := true }
+    reconcile [r0] (some r1) none true = ([], true) := by
   decide
 
 /-- **gc_never_current_counterexample** (unit level only): `archiveReconciler.Reconcile` called
